@@ -755,10 +755,11 @@ peg::parser! {
                 BraceExpressionMember::CharSequence { start, end, increment: increment.unwrap_or(1) }
             }
 
-        rule number() -> i64 = sign:number_sign()? n:$(['0'..='9']+) {
+        rule number() -> i64 = sign:number_sign()? n:$(['0'..='9']+) {?
+            // A number that doesn't fit is not a sequence bound; the braces stay literal text.
             let sign = sign.unwrap_or(1);
-            let num: i64 = n.parse().unwrap();
-            num * sign
+            let num: i64 = n.parse().map_err(|_| "number out of range")?;
+            Ok(num * sign)
         }
 
         rule number_sign() -> i64 =
